@@ -93,6 +93,17 @@ class CaseTimeout(BaseException):
 
 
 CASE_TIMEOUT = {'quick': 90, 'thorough': 600}
+# wall-clock budget of the minimisation phase per shard (all signatures together) and of one
+# fresh-process reproduction.  These only bound how long the machinery spends making a failure
+# small; they are never a correctness signal: when the budget runs out the smallest failing
+# case seen so far (or the unshrunk one) is reported.
+SHRINK_BUDGET_S = {'quick': 45, 'thorough': 900}
+SHRINK_CASE_LIMIT_S = {'quick': 20, 'thorough': 120}
+# once a shard has recorded a violation, it stops generating further cases after this many
+# seconds (the rest of the exploration only serves to find *other* signatures); a shard
+# without a violation always runs its whole budget, so the unchanged tree is explored in full
+GEN_BUDGET_AFTER_VIOLATION_S = {'quick': 100, 'thorough': 1500}
+ISOLATE_TIMEOUT_S = {'quick': 150, 'thorough': 900}
 
 
 def _alarm(signum, frame):
@@ -136,6 +147,9 @@ def _execute(prop, prop_id, case, st, open_entries, origin):
         _kill_children()
         st.labels['case_timeout'] += 1
         st.timeouts += 1
+        # the run is inconclusive from here on (unless a violation is found); do not wait as
+        # long for the next case that does not come back
+        st.case_timeout = max(20, st.case_timeout // 3)
         return
     except Violation as v:
         sig = v.signature(prop_id)
@@ -210,14 +224,24 @@ def run_shard(args):
 
         # generated part
         if n_examples > 0 and getattr(prop, 'strategy', None) is not None:
+            gen_until = t0 + GEN_BUDGET_AFTER_VIOLATION_S.get(tier, 100)
+
             def body(case):
+                if st.failures and not FOUND.value:
+                    FOUND.value = 1
+                if (st.failures or FOUND.value) and time.time() > gen_until:
+                    st.labels['skipped:budget_after_violation'] += 1
+                    return
                 _execute(prop, prop_id, case, st, open_entries, 'generated')
             _hyp_run(prop, tier, sseed, n_examples, [Phase.generate], body)
+            out['t_generate'] = time.time() - t0
 
             # shrink each new signature found by generation: re-run the same
             # seeded search, failing only on that signature; the last failing
             # case Hypothesis visits is the smallest one.
             if do_shrink:
+                shrink_until = time.time() + SHRINK_BUDGET_S.get(tier, 45)
+                shrink_limit = min(st.case_timeout, SHRINK_CASE_LIMIT_S.get(tier, 20))
                 for nsig, (sig, rec) in enumerate(sorted(st.failures.items())):
                     if rec['origin'] != 'generated' or nsig >= 4:
                         continue
@@ -225,10 +249,10 @@ def run_shard(args):
 
                     def sbody(case, sig=sig, best=best):
                         best['calls'] += 1
-                        if best['calls'] > shrink_cap:
+                        if best['calls'] > shrink_cap or time.time() > shrink_until:
                             return
                         try:
-                            run_with_limit(prop, case, st.case_timeout)
+                            run_with_limit(prop, case, shrink_limit)
                         except CaseTimeout:
                             _kill_children()
                             return
@@ -238,6 +262,8 @@ def run_shard(args):
                                 best['case'] = case
                                 best['detail'] = v.detail
                                 raise
+                    if time.time() > shrink_until:
+                        continue
                     try:
                         _hyp_run(prop, tier, sseed, n_examples,
                                  [Phase.generate, Phase.shrink], sbody)
@@ -302,6 +328,12 @@ def replay(prop_id, path):
     return 0
 
 
+_TIER = ['quick']
+# set by the first shard that records a violation (inherited through fork): lets the other
+# shards apply GEN_BUDGET_AFTER_VIOLATION_S too
+FOUND = multiprocessing.get_context('fork').Value('i', 0)
+
+
 def reproduces_in_isolation(prop_id, sig, case, prelude):
     """Replays (prelude +) case in a fresh process; True iff the same signature is raised."""
     import subprocess
@@ -314,7 +346,8 @@ def reproduces_in_isolation(prop_id, sig, case, prelude):
                             'import sys; from vp.runner import main; sys.exit(main())',
                             prop_id, '--replay', tmp], cwd=common.VERIF_DIR,
                            stdout=subprocess.PIPE, stderr=subprocess.STDOUT, text=True,
-                           timeout=600, env=dict(os.environ, PYTHONHASHSEED='0',
+                           timeout=ISOLATE_TIMEOUT_S.get(_TIER[0], 150),
+                           env=dict(os.environ, PYTHONHASHSEED='0',
                                                  PYTHONDONTWRITEBYTECODE='1'))
         return r.returncode == 1 and ('replay-signature: %s' % sig) in r.stdout
     except Exception:
@@ -469,12 +502,25 @@ def main(argv=None):
     viol_lines = []
     if failures:
         os.makedirs(OUT_DIR, exist_ok=True)
+    t_iso = time.time()
+    if os.environ.get('VERIF_TIMING'):
+        sys.stderr.write('timing: shards generate=%r total=%r\n' % (
+            [round(r.get('t_generate', 0)) for r in results], [round(r['wall']) for r in results]))
+    _TIER[0] = a.tier
+    todo = [sig for sig in sorted(failures) if not failures[sig]['origin'].startswith('corpus')]
+    isolated = {}
+    if todo:
+        # fresh-process reproductions of the different signatures run side by side
+        from multiprocessing.pool import ThreadPool
+        with ThreadPool(min(8, len(todo))) as tp:
+            for sig, res in zip(todo, tp.map(lambda s: isolate(prop_id, s, failures[s]), todo)):
+                isolated[sig] = res
     for sig in sorted(failures):
         rec = failures[sig]
         if rec['origin'].startswith('corpus'):
             case, prelude, note = rec['case'], [], 'corpus case'
         else:
-            case, prelude, note = isolate(prop_id, sig, rec)
+            case, prelude, note = isolated[sig]
         rec['isolation_note'] = note
         path = os.path.join(OUT_DIR, '%s-%s.json' % (prop_id, sig_hash(sig)))
         with open(path, 'w') as f:
@@ -490,6 +536,8 @@ def main(argv=None):
         viol_lines.append((sig, rec, path))
 
     wall = time.time() - t0
+    if os.environ.get('VERIF_TIMING'):
+        sys.stderr.write('timing: isolation=%.0fs wall=%.0fs\n' % (time.time() - t_iso, wall))
     cov = {
         'evaluations': evaluations,
         'distinct_nontrivial': len(nontrivial),
